@@ -38,6 +38,7 @@ import time
 from lxml import etree
 
 from verif import tracecheck
+from verif.mdibharness import EXTRA_MEMBERS
 from verif.c05_helpers import (EMPTY, FIXED_NOW, LIST_ITEM_CATALOGUE, NOTSET, STR_CATALOGUE, Builder, Tok, Uninstantiable, World, Xml, cobj,
                                cval, short_exc)
 from verif.tlc import MachineryError, json_lines, run_tlc
@@ -134,13 +135,47 @@ def _strip(pi):
     return strip
 
 
+def _no_clock(c):
+    """Canonical value without timestamps that the writer itself sets (CurrentTimestampAttributeProperty)."""
+    if isinstance(c, dict):
+        return {k: _no_clock(v) for k, v in c.items() if not (isinstance(v, str) and v.startswith('T:'))}
+    if isinstance(c, list):
+        return [_no_clock(v) for v in c]
+    return c
+
+
+def _donor_untouched(env: Env, cls, obj):
+    """A value whose element list is handed to another object (the library builds a header block from the reference
+    parameters of an endpoint reference it received): writing the second object must leave the first one, the XML
+    it writes and the documents written before untouched."""
+    x = env.x
+    name = EXTRA_MEMBERS[cls.__name__][0]
+    donor_cls = next(c for c in env.w.tested if c.__name__ == 'EndpointReferenceType')
+    donor = env.b.full(donor_cls)
+    donor.ReferenceParameters = list(getattr(env.b.full(cls), name))
+    strict = lambda o_: [etree.tostring(e, method='c14n') for e in o_.ReferenceParameters]   # noqa: E731
+    donor_xml = etree.tostring(x.write_root(donor))
+    donor_val = strict(donor)
+    setattr(obj, name, donor.ReferenceParameters)     # the very same element objects
+    first = x.write_root(obj)
+    first_xml = etree.tostring(first)
+    x.write_root(obj)
+    if etree.tostring(first) != first_xml:
+        return False, 'a second write of the header changed the header document written first'
+    if strict(donor) != donor_val:
+        return False, 'writing the header changed the elements of the endpoint reference they were taken from'
+    if etree.tostring(x.write_root(donor)) != donor_xml:
+        return False, 'the endpoint reference writes different XML after a header was written from its parameters'
+    return True, ''
+
+
 def _run(env: Env, cls, obj, pi, vc) -> dict:
     """Write obj, read it back, write again; return the observation record o (+ private fields with '_')."""
     w, x, tok = env.w, env.x, env.tok
     whole = pi is None
     o = {'w': 'ok', 'r': 'na', 'w2': 'na', 'tin': -1, 'tout': -2, 'tnone': env.tnone, 'testr': env.testr,
          'tdflt': -3, 'timpl': -4, 'tnow': env.tnow, 'rest': True, 'eq': 'na', 'x12': 'na', 'valid': 'na',
-         'shared': False}
+         'shared': False, 'pure': True}
     if not whole:
         prop = pi.prop
         if prop._default_py_value is not None:  # noqa: SLF001
@@ -148,8 +183,20 @@ def _run(env: Env, cls, obj, pi, vc) -> dict:
         if prop._implied_py_value is not None:  # noqa: SLF001
             o['timpl'] = tok(cval(prop._implied_py_value))  # noqa: SLF001
     try:
+        v_before = cobj(obj) if whole else None
         node = x.write_root(obj)
         xml1 = etree.tostring(node)
+        if whole:
+            # writing is an observation: the value is what it was, and a second write of the same object says the same
+            # (the clock member is set while writing: dropped from the comparison by cobj of the same object twice)
+            again = etree.tostring(x.write_root(obj))
+            o['pure'] = bool(again == xml1 and _no_clock(v_before) == _no_clock(cobj(obj)))
+            if not o['pure']:
+                o['_impure'] = 'second write differs' if again != xml1 else 'value changed by writing'
+            elif vc == 'full' and cls.__name__ in EXTRA_MEMBERS:
+                o['pure'], why = _donor_untouched(env, cls, obj)
+                if not o['pure']:
+                    o['_impure'] = why
     except MachineryError:
         raise
     except Exception as ex:  # noqa: BLE001
@@ -291,7 +338,7 @@ def broken_record(env: Env, name: str, text: str):
     """A class whose declaration is inconsistent (sorted_container_properties raises): it cannot even be instantiated."""
     o = {'w': 'raise', 'r': 'na', 'w2': 'na', 'tin': -1, 'tout': -2, 'tnone': env.tnone, 'testr': env.testr,
          'tdflt': -3, 'timpl': -4, 'tnow': env.tnow, 'rest': True, 'eq': 'na', 'x12': 'na', 'valid': 'na',
-         'shared': False, '_exc': f'{name}() cannot be instantiated: {text}'}
+         'shared': False, 'pure': True, '_exc': f'{name}() cannot be instantiated: {text}'}
     return {'c': {'p': WHOLE, 'vc': 'base'}, 'o': o, 'cls': name, 'prop': '*', 'variant': 0, 'decl': name,
             'site': 'class'}
 
@@ -362,7 +409,7 @@ def _canaries(env: Env) -> list[tuple[dict, str | None]]:
     """Hand-made records (good and bad twins per clause): guards against a judge that accepts everything."""
     t = {'tnone': 0, 'testr': 1, 'tdflt': 2, 'timpl': 3, 'tnow': 4}
     good = {'w': 'ok', 'r': 'ok', 'w2': 'ok', 'tin': 7, 'tout': 7, 'rest': True, 'eq': 'true', 'x12': 'same',
-            'valid': 'valid', 'shared': False, **t}
+            'valid': 'valid', 'shared': False, 'pure': True, **t}
 
     def mk(p, vc, **kw):
         return {'c': {'p': p, 'vc': vc}, 'o': {**good, **kw}}
